@@ -153,10 +153,11 @@ theorem ns_forLoop (c : ICtx) (x : Nat) (b : Expr) : ∀ (is : Seq) (D : Env) (a
     simp only [forLoop]; exact NS.bnd (hev _ _ _) (fun r => ns_forLoop c x b is _ _)
 
 omit hs in
-theorem ns_mapLoop (c : ICtx) (b : Expr) : ∀ (is : Seq) (D : Env) (acc : Seq), NS (mapLoop ev c b D acc is)
-  | [], D, acc => NS.ret _
-  | i :: is, D, acc => by
-    simp only [mapLoop]; exact NS.bnd (hev _ _ _) (fun r => ns_mapLoop c b is _ _)
+theorem ns_mapLoop (c : ICtx) (b : Expr) (size : Nat) : ∀ (is : Seq) (k : Nat) (D : Env) (acc : Seq),
+    NS (mapLoop ev c b size k D acc is)
+  | [], k, D, acc => NS.ret _
+  | i :: is, k, D, acc => by
+    simp only [mapLoop]; exact NS.bnd (hev _ _ _) (fun r => ns_mapLoop c b size is _ _ _)
 
 theorem ns_hofForEach (c : ICtx) (a : Nat) : ∀ (xs : Seq) (D : Env) (acc : Seq), NS (hofForEach cfg ev c a D acc xs)
   | [], D, acc => NS.ret _
@@ -230,6 +231,14 @@ theorem ns_step (e : Expr) (c : ICtx) (D : Env) : NS (step cfg ev e c D) := by
     simp only [step]
     apply NS.bnd (NS.flag _ rfl); intro _
     split <;> ns_basic
+  | posE =>
+    simp only [step]
+    apply NS.bnd (NS.flag _ rfl); intro _
+    split <;> ns_basic
+  | lastE =>
+    simp only [step]
+    apply NS.bnd (NS.flag _ rfl); intro _
+    split <;> ns_basic
   | add a b => exact ns_evArith ev hev _ a b c D
   | sub a b => exact ns_evArith ev hev _ a b c D
   | mul a b => exact ns_evArith ev hev _ a b c D
@@ -272,7 +281,7 @@ theorem ns_step (e : Expr) (c : ICtx) (D : Env) : NS (step cfg ev e c D) := by
   | par e => exact hev _ _ _
   | smap a b =>
     simp only [step]
-    exact NS.bnd (hev _ _ _) (fun _ => ns_mapLoop ev hev _ _ _ _ _)
+    exact NS.bnd (hev _ _ _) (fun _ => ns_mapLoop ev hev _ _ _ _ _ _ _)
   | forEach s f =>
     simp only [step]
     exact NS.bnd (ns_funArgNote ev hev _ _ _ _) (fun _ => NS.bnd (hev _ _ _)
